@@ -99,7 +99,8 @@ def run(ctx):
 
     def labels(n=None):
         n = int(rng.integers(0, 8)) if n is None else n
-        return [[int(x) for x in rng.integers(0, 4, size=int(rng.integers(0, 4)))] for _ in range(n)]
+        hi = int(rng.choice([4, 4, 7, 12]))
+        return [[int(x) for x in rng.integers(0, hi, size=int(rng.integers(0, 4)))] for _ in range(n)]
 
     def law(ok, what, case, mech):
         ctx.count("law_checks")
@@ -210,8 +211,19 @@ def run(ctx):
                 b = labels(len(lab))
                 m = a1.merge(AnnotatedState([list(x) for x in b]))
                 law([sorted(x) for x in m.s] == [sorted(x + y) for x, y in zip(lab, b)], "annotated merge", case, "merge")
+                # ... and the merged state IS that state: equal to, and hashing like, the one built directly from the
+                # per-mode multisets, whichever operand came first (labels of the two operands interleave)
+                direct = AnnotatedState([list(x + y) for x, y in zip(lab, b)])
+                m_rev = AnnotatedState([list(x) for x in b]).merge(a1)
+                case.update(merged_with=b)
+                law(m == direct and hash(m) == hash(direct) and m_rev == direct and hash(m_rev) == hash(direct) and m == m_rev,
+                    "a merged annotated state does not equal / hash like the state built from the same label multisets",
+                    case, "annotated_merge_eq")
                 c2 = a1 + AnnotatedState([list(x) for x in b])
                 law([sorted(x) for x in c2.s] == [sorted(x) for x in lab + b], "annotated +", case, "concat")
+                direct_c = AnnotatedState([list(x) for x in lab + b])
+                law(c2 == direct_c and hash(c2) == hash(direct_c),
+                    "a concatenated annotated state does not equal / hash like the state built directly", case, "annotated_concat_eq")
                 if lab:
                     i, j = sorted(int(x) for x in rng.integers(0, len(lab) + 1, size=2))
                     law(a1[i:j] == AnnotatedState([list(x) for x in lab[i:j]]), "annotated slice", case, "slice")
